@@ -279,6 +279,7 @@ type Terminal struct {
 	yanked             []rune
 	input              []rune
 	inputOverride      *[]rune
+	overrideEnded      bool
 	pasting            *[]rune
 	multi              int
 	multiLine          bool
@@ -1452,6 +1453,13 @@ func (t *Terminal) getScrollbar() (int, int) {
 }
 
 // Input returns current query string
+func (t *Terminal) endStaleOverride() {
+	if t.overrideEnded {
+		t.inputOverride = nil
+		t.overrideEnded = false
+	}
+}
+
 func (t *Terminal) Input() (bool, []rune) {
 	t.mutex.Lock()
 	defer t.mutex.Unlock()
@@ -5642,6 +5650,9 @@ func (t *Terminal) Loop() error {
 			case actToggleSearch:
 				t.paused = !t.paused
 				changed = !t.paused
+				if !t.paused {
+					t.endStaleOverride()
+				}
 				req(reqPrompt)
 			case actToggleTrack:
 				switch t.track {
@@ -5716,13 +5727,16 @@ func (t *Terminal) Loop() error {
 			case actSearch:
 				override := []rune(a.a)
 				t.inputOverride = &override
+				t.overrideEnded = false
 				changed = true
 			case actTransformSearch:
 				override := []rune(t.captureLine(a.a))
 				t.inputOverride = &override
+				t.overrideEnded = false
 				changed = true
 			case actEnableSearch:
 				t.paused = false
+				t.endStaleOverride()
 				changed = true
 				req(reqPrompt)
 			case actDisableSearch:
@@ -6167,7 +6181,13 @@ func (t *Terminal) Loop() error {
 				t.cx = len(t.input)
 				beof = false
 			} else if string(t.input) != string(currentInput) {
-				t.inputOverride = nil
+				if t.paused && t.inputOverride != nil {
+					// The query line is not searched while search is disabled, so the searched string
+					// stays in effect (the coordinator may not have seen it yet) until search is enabled
+					t.overrideEnded = true
+				} else {
+					t.inputOverride = nil
+				}
 			}
 			return true
 		}
